@@ -24,6 +24,9 @@ structure OpsPreserve (P : Ctx → Prop) : Prop where
   assoc : ∀ c rs, P c → OutcomeP P (opAssoc c rs)
   tempCopy : ∀ c, P c → OutcomeP P (opTempCopy c)
   attrSet : ∀ c a b v, P c → OutcomeP P (opAttrSet c a b v)
+  putGlyph : ∀ c k, P c → OutcomeP P (opPutGlyph c k)
+  putSubs : ∀ c r i o, P c → OutcomeP P (opPutSubs c r i o)
+  slotat : ∀ c x, P c → P (slotat c x).2
 
 theorem stepInstr_preserves (P : Ctx → Prop) (H : OpsPreserve P) (s : St) (i : Instr) (h : P s.ctx) : StepP P (stepInstr s i) := by
   obtain ⟨opc, ps⟩ := i
@@ -50,6 +53,14 @@ theorem stepInstr_preserves (P : Ctx → Prop) (H : OpsPreserve P) (s : St) (i :
   · exact wc _ _ (H.putCopy _ _ h)
   · exact wc _ _ (H.assoc _ _ h)
   · exact wc _ _ (H.tempCopy _ h)
+  · exact wc _ _ (H.putGlyph _ _ h)
+  · exact wc _ _ (H.putSubs _ _ _ _ h)
+  · have hs := H.slotat s.ctx (s8 (ps.getD 1 0)) h
+    split
+    · split
+      · exact hs
+      · trivial
+    · exact hs
   · split
     · have := H.attrSet s.ctx (ps.getD 0 0) 0 (i16 ‹Int›) h
       split <;> rename_i heq <;> rw [heq] at this <;> first | exact this | trivial
